@@ -31,6 +31,8 @@ Definition adaptor_literals_expected : Prop :=
   [""; ""; """"; "\"; "{"; "child_"; "}"])
   /\ (literals_split_outside_quotes =
   [""; ""; """"; "\"; ""])
+  /\ (literals_unquote_name =
+  [""""; """"])
   /\ (literals_container_type =
   ["*"; "vector"; "0..1"; "none"; "0..*"; "vector"; "1..*"; "vector"; ".."; ".."; "array:"; "vector"; "0"; "none"; "1"; "none"; "array:"; "none"; "none"])
   /\ (literals_type_and_name =
